@@ -32,6 +32,12 @@ pub enum Path {
     Stack { which: usize },
     /// API write to the constructor's code area
     ApiWriteCode { width: u64 },
+    /// a store that starts inside the target area and runs into a directly adjacent area with mask
+    /// `nmask`: 0 API 16 bytes, 1 API 8 bytes, 2 movups [rbx],xmm1, 3 mov [rbx],rax, 4 add [rbx],rax, 5 API 3 bytes
+    Straddle { kind: u8, nmask: u32, inside: u64 },
+    /// a segment loaded from a generated ELF with p_flags = mask: 0 API write, 1 guest store, 2 API read,
+    /// 3 guest load, 4 fetch; `exact_page`: p_filesz = p_memsz = one page (no zero padding)
+    Elf { kind: u8, exact_page: bool },
 }
 
 #[derive(Clone, Debug, Serialize, Deserialize)]
@@ -141,6 +147,117 @@ impl C09 {
     }
 }
 
+impl C09 {
+    fn exec_straddle(&mut self, c: &Case, kind: u8, nmask: u32, inside: u64) -> CaseOut {
+        let code: Vec<u8> = match kind {
+            2 => self.t.iter().find(|t| t.name == "movups [rbx],xmm1").unwrap().bytes.clone(),
+            3 => self.t.iter().find(|t| t.name == "mov [rbx],rax").unwrap().bytes.clone(),
+            4 => self.t.iter().find(|t| t.name == "add [rbx],rax").unwrap().bytes.clone(),
+            _ => vec![0x90],
+        };
+        let mut img = code.clone();
+        img.extend_from_slice(&[0x90; 8]);
+        let mut ax = match api(|| Axecutor::new(&img, CODE_AT, CODE_AT)) {
+            Api::Ok(a) => a,
+            other => return CaseOut::fail("HARNESS-FAULT|C09-new".into(), other.short()),
+        };
+        init_regs(&mut ax, c.seed);
+        ax.mem_init_area(TARGET, crate::mach::fill(c.seed, crate::native::ArenaKind::Rw, TLEN as usize)).unwrap();
+        ax.mem_init_area(TARGET + TLEN, crate::mach::fill(c.seed ^ 1, crate::native::ArenaKind::Ro, 0x100)).unwrap();
+        ax.mem_prot(TARGET, c.mask).unwrap();
+        ax.mem_prot(TARGET + TLEN, nmask).unwrap();
+        let addr = TARGET + TLEN - inside;
+        ax.reg_write_64(SR::RBX, addr).unwrap();
+        let before = ax.verif_areas();
+        let res: Api<()> = match kind {
+            0 => api(|| ax.mem_write_128(addr, 0x5a5a_5a5a_5a5a_5a5a_5a5a_5a5a_5a5a_5a5a)),
+            1 => api(|| ax.mem_write_64(addr, 0x5a5a_5a5a_5a5a_5a5a)),
+            5 => api(|| ax.mem_write_bytes(addr, &[0x5a; 3])),
+            _ => match step(&mut ax) {
+                Api::Ok(_) => Api::Ok(()),
+                Api::Err(e) => Api::Err(e),
+                Api::Panic(p) => Api::Panic(p),
+            },
+        };
+        let mut out = CaseOut::pass(true, hash_json(c)).class("kind:straddle").class("denial");
+        let what = format!("a store of kind {} that starts {} bytes before the end of an area with mask {} and runs into the adjacent area with mask {}", kind, inside, c.mask, nmask);
+        if let Api::Panic(p) = &res {
+            out.verdict = Verdict::Fail { sig: format!("C09|straddle|{}", p.signature()), msg: format!("{} crashed: {}", what, res.short()) };
+            return out;
+        }
+        if res.is_ok() {
+            out.verdict = Verdict::Fail { sig: "C09|straddle|access-across-two-areas-succeeded".into(), msg: format!("{} succeeded", what) };
+            return out;
+        }
+        let after = ax.verif_areas();
+        if before.iter().zip(after.iter()).any(|(a, b)| a.data != b.data) {
+            out.verdict = Verdict::Fail { sig: "C09|straddle|denied-access-changed-memory".into(), msg: format!("{} was refused ({}) but memory changed", what, res.short()) };
+        }
+        out
+    }
+
+    fn exec_elf(&mut self, c: &Case, kind: u8, exact_page: bool) -> CaseOut {
+        use crate::elfb::{build, ElfDesc, Seg};
+        let (r, w, x) = (c.mask & 1 != 0, c.mask & 2 != 0, c.mask & 4 != 0);
+        let flags = (if r { 4 } else { 0 }) | (if w { 2 } else { 0 }) | (if x { 1 } else { 0 });
+        let (fsz, msz) = if exact_page { (0x1000u64, 0x1000u64) } else { (0x80, 0x100) };
+        let d = ElfDesc {
+            entry: 0x40_0000,
+            segs: vec![Seg { p_type: 1, flags: 5, vaddr: 0x40_0000, filesz: 0x20, memsz: 0x20, seed: 1 }, Seg { p_type: 1, flags, vaddr: 0x40_2000, filesz: fsz, memsz: msz, seed: 2 }],
+            syms: None,
+            with_shdrs: false,
+        };
+        let (mut file, lay) = build(&d);
+        // driver code: mov [rbx],al ; nop ; mov cl,[rbx] ; nop…  — target bytes: nops
+        let drv = [0x88u8, 0x03, 0x90, 0x8a, 0x0b, 0x90, 0x90, 0x90];
+        file[lay.seg_offsets[0]..lay.seg_offsets[0] + 8].copy_from_slice(&drv);
+        for b in file[lay.seg_offsets[1]..lay.seg_offsets[1] + fsz as usize].iter_mut() {
+            *b = 0x90;
+        }
+        let mut ax = match api(|| Axecutor::from_binary(&file)) {
+            Api::Ok(a) => a,
+            other => return CaseOut::fail("HARNESS-FAULT|C09-elf-load".into(), other.short()),
+        };
+        init_regs(&mut ax, c.seed);
+        let addr = 0x40_2000 + (c.offset & 0x70);
+        ax.reg_write_64(SR::RBX, addr).unwrap();
+        ax.reg_write_64(SR::RIP, match kind { 1 => 0x40_0000, 3 => 0x40_0003, 4 => addr, _ => 0x40_0006 }).unwrap();
+        let before = ax.verif_areas();
+        let res: Api<()> = match kind {
+            0 => api(|| ax.mem_write_8(addr, 0x5a)),
+            2 => api(|| ax.mem_read_8(addr).map(|_| ())),
+            _ => match step(&mut ax) {
+                Api::Ok(_) => Api::Ok(()),
+                Api::Err(e) => Api::Err(e),
+                Api::Panic(p) => Api::Panic(p),
+            },
+        };
+        let (needs_missing, required) = match kind {
+            0 | 1 => (!w, r && w),
+            2 | 3 => (!r, r),
+            _ => (!x, r && x),
+        };
+        let what = format!("{} on an ELF-loaded segment with p_flags {}{}{} ({})", ["API write", "guest store", "API read", "guest load", "instruction fetch"][kind as usize], if r { "R" } else { "-" }, if w { "W" } else { "-" }, if x { "X" } else { "-" }, if exact_page { "exactly one page, no zero padding" } else { "with a bss tail" });
+        let mut out = CaseOut::pass(true, hash_json(c)).class("kind:elf-segment").class(if needs_missing { "denial" } else { "allowance" });
+        if let Api::Panic(p) = &res {
+            out.verdict = Verdict::Fail { sig: format!("C09|elf|{}", p.signature()), msg: format!("{} crashed: {}", what, res.short()) };
+            return out;
+        }
+        let after = ax.verif_areas();
+        let same = before.iter().zip(after.iter()).all(|(a, b)| a.data == b.data);
+        if needs_missing {
+            if res.is_ok() {
+                out.verdict = Verdict::Fail { sig: "C09|elf|access-without-permission-succeeded".into(), msg: format!("{}: the needed permission is missing but the access succeeded", what) };
+            } else if !same {
+                out.verdict = Verdict::Fail { sig: "C09|elf|denied-access-changed-memory".into(), msg: format!("{}: denied but memory changed", what) };
+            }
+        } else if required && !res.is_ok() {
+            out.verdict = Verdict::Fail { sig: "C09|elf|permitted-access-refused".into(), msg: format!("{}: answered {}", what, res.short()) };
+        }
+        out
+    }
+}
+
 impl Property for C09 {
     type Case = Case;
     fn id(&self) -> &'static str {
@@ -159,7 +276,13 @@ impl Property for C09 {
         let mut t = Tape::new(&tape[0]);
         let mask = t.below(8) as u32;
         let nt = self.t.len() as u64;
-        let path = match t.weighted(&[15, 15, 10, 40, 15, 5]) {
+        let path = match t.weighted(&[13, 13, 9, 36, 13, 4, 6, 6]) {
+            6 => {
+                let kind = t.below(6) as u8;
+                let size = [16u64, 8, 16, 8, 8, 3][kind as usize];
+                Path::Straddle { kind, nmask: t.below(8) as u32, inside: 1 + t.below(size - 1) }
+            }
+            7 => Path::Elf { kind: t.below(5) as u8, exact_page: t.bool() },
             0 => Path::ApiRead { width: t.pick(&[1u64, 2, 4, 8, 16, 3]) },
             1 => Path::ApiWrite { width: t.pick(&[1u64, 2, 4, 8, 16, 3]) },
             2 => Path::Fetch,
@@ -188,11 +311,29 @@ impl Property for C09 {
                 v.push(Case { mask, path: Path::ApiWriteCode { width }, offset: 0x100, seed: 5, cf_zf: 0 });
             }
             v.push(Case { mask, path: Path::Fetch, offset: 0x100, seed: 6, cf_zf: 0 });
+            for kind in 0..6u8 {
+                let size = [16u64, 8, 16, 8, 8, 3][kind as usize];
+                for nmask in 0..8u32 {
+                    for inside in [1, size / 2, size - 1] {
+                        v.push(Case { mask, path: Path::Straddle { kind, nmask, inside }, offset: 0x100, seed: 7, cf_zf: 0 });
+                    }
+                }
+            }
+            for kind in 0..5u8 {
+                for exact_page in [false, true] {
+                    v.push(Case { mask, path: Path::Elf { kind, exact_page }, offset: 0x100, seed: 8, cf_zf: 0 });
+                }
+            }
         }
         v
     }
 
     fn exec(&mut self, c: &Case) -> CaseOut {
+        match &c.path {
+            Path::Straddle { kind, nmask, inside } => return self.exec_straddle(c, *kind, *nmask, *inside),
+            Path::Elf { kind, exact_page } => return self.exec_elf(c, *kind, *exact_page),
+            _ => {}
+        }
         // code: the instruction under test followed by padding
         let (code, what): (Vec<u8>, String) = match &c.path {
             Path::Operand { template } => (self.t[*template].bytes.clone(), self.t[*template].name.to_string()),
@@ -248,6 +389,7 @@ impl Property for C09 {
             Path::Fetch => (Role::None, "fetch"),
             Path::Operand { template } => (self.t[*template].role, "operand"),
             Path::Stack { which } => (if STACK_OPS[*which].2 { Role::Write } else { Role::Read }, "stack"),
+            _ => unreachable!(),
         };
         let res: Api<()> = match &c.path {
             Path::ApiRead { width } => api(|| {
@@ -346,11 +488,11 @@ impl Property for C09 {
     }
 
     fn rule(&self) -> String {
-        "fixed: the complete grid 8 masks × (55 guest instruction templates by operand role × 4 CF/ZF states, 7 implicit stack instructions, API reads/writes of 1/2/3/4/8/16 bytes, API writes into the constructor's code area, instruction fetch); random: the same grid with random offsets and register contents; oracle = enforcement model (read needs R, write needs W, read-modify-write needs R and W, fetch needs X): a missing bit ⇒ Err and every area byte-identical; success is required when the mask also contains R; non-trivial = a denial, or any case on a mask other than RW; distinct by hash(case)".into()
+        "fixed: the complete grid 8 masks × (55 guest instruction templates by operand role × 4 CF/ZF states, 7 implicit stack instructions, API reads/writes of 1/2/3/4/8/16 bytes, API writes into the constructor's code area, instruction fetch, stores that run from the target area into a directly adjacent area of any mask, and all five access kinds on a segment loaded from a generated ELF with p_flags = mask, with and without zero padding); random: the same grid with random offsets and register contents; oracle = enforcement model (read needs R, write needs W, read-modify-write needs R and W, fetch needs X): a missing bit ⇒ Err and every area byte-identical; success is required when the mask also contains R; non-trivial = a denial, or any case on a mask other than RW; distinct by hash(case)".into()
     }
     fn required_classes(&self, _tier: Tier) -> Vec<String> {
         let mut v = vec!["denial".into(), "allowance".into(), "tier:fixed".into()];
-        for k in ["api", "operand", "stack", "fetch"] {
+        for k in ["api", "operand", "stack", "fetch", "straddle", "elf-segment"] {
             v.push(format!("kind:{}", k));
         }
         v
